@@ -22,6 +22,8 @@ pub trait Store: GarnishData<Size = usize, Number = SimpleNumber, Char = char, B
     fn create(host: Option<Host>) -> Self;
     fn add_chars(&mut self, s: &str) -> Result<usize, DataError>;
     fn add_bytes(&mut self, b: &[u8]) -> Result<usize, DataError>;
+    /// a value of type Custom (host data): `NoCustom {}` on Simple, `()` on Basic
+    fn add_custom_value(&mut self) -> Result<usize, DataError>;
     fn host_log(&self) -> Vec<String>;
     fn value_stack_len(&self) -> usize;
     fn frame_depth(&self) -> usize;
@@ -100,6 +102,9 @@ impl Store for SimpleStore {
     fn add_bytes(&mut self, b: &[u8]) -> Result<usize, DataError> {
         self.add_u8_vec(b.to_vec())
     }
+    fn add_custom_value(&mut self) -> Result<usize, DataError> {
+        self.add_custom(garnish_lang_simple_data::NoCustom {})
+    }
     fn host_log(&self) -> Vec<String> {
         self.auxiliary_data().log.clone()
     }
@@ -167,6 +172,9 @@ impl Store for BasicStore {
     }
     fn add_bytes(&mut self, b: &[u8]) -> Result<usize, DataError> {
         self.add_byte_slice(b)
+    }
+    fn add_custom_value(&mut self) -> Result<usize, DataError> {
+        self.push_to_data_block(garnish_lang_simple_data::BasicData::Custom(()))
     }
     fn host_log(&self) -> Vec<String> {
         self.companion().log.clone()
